@@ -1957,10 +1957,13 @@ impl<'a> CompilerState<'a> {
                         local_variables.push(s);
                     }
                     self.in_scope_variables.push(map);
+                    // A definition may replace its own prototype, so the table length is not a
+                    // fresh rank: take the next one after every function seen so far
+                    let order = self.functions.values().map(|f| f.order + 1).max().unwrap_or(0);
                     self.functions.insert(
                         name.clone(),
                         Function {
-                            order: self.functions.len(),
+                            order,
                             inline,
                             bank,
                             code: None,
@@ -2131,10 +2134,11 @@ impl<'a> CompilerState<'a> {
         }
         // This is just a prototype definition
         if self.functions.get(&name).is_none() {
+            let order = self.functions.values().map(|f| f.order + 1).max().unwrap_or(0);
             self.functions.insert(
                 name.clone(),
                 Function {
-                    order: self.functions.len(),
+                    order,
                     inline,
                     bank,
                     code: None,
